@@ -38,7 +38,7 @@ class C20(P.Property):
     assumptions = ["iteration order is not part of the property (compared as sorted lists)",
                    "DBMDict is never opened twice on one path at once (the class blocks on a per-path thread lock by design)"]
     probe_names = ["set_del_set_across_reopen", "clear_then_reopen", "clear_while_closed", "from_dict_aliasing",
-                   "refused_between_syncs", "op_while_closed", "ctx_exit", "create_existing", "open_missing", "dbm_session"]
+                   "refused_between_syncs", "op_while_closed", "ctx_exit", "create_existing", "open_missing", "dbm_session", "bystander_dict"]
 
     def setup(self):
         from .. import world
@@ -60,10 +60,15 @@ class C20(P.Property):
         allops = ["set", "set", "setbad", "getitem", "get", "getd", "del", "del", "in", "len", "iter", "clear", "sync", "close",
                   "reopen", "reopen", "create_existing", "open_missing", "ctx"]
         enabled = [o for o in allops if rng.random() < 0.75] or ["set", "reopen", "get"]
+        bystander = rng.random() < 0.25  # a second, unrelated dictionary of the same class alive in the same process
+        if bystander:
+            enabled = enabled + ["by", "by"]
         steps = []
         for _ in range(rng.randint(1, 50)):
             op = rng.choice(enabled)
             st = {"op": op}
+            if op == "by":
+                st.update(do=rng.choice(["set", "set", "del", "check"]), k=rng.randrange(len(KEYS)), v=hx(rng.randbytes(rng.randint(0, 6))))
             if op == "set":
                 st.update(k=rng.randrange(len(KEYS)), v=hx(rng.randbytes(rng.randint(0, 6) if rng.random() < 0.97 else rng.choice([255, 4096, 70000]))),
                           ba=rng.random() < 0.25)
@@ -74,9 +79,11 @@ class C20(P.Property):
             elif op == "getd":
                 st.update(k=rng.randrange(len(KEYS) + 1))
             steps.append(st)
-        return {"property": "C20", "seed": seed, "cls": cls, "start": start, "steps": steps}
+        return {"property": "C20", "seed": seed, "cls": cls, "start": start, "steps": steps, "bystander": bystander}
 
     def execute(self, plan):
+        from .. import world
+        world.restore_repo_state()  # one plan = one execution: nothing of an earlier run in module-, class- or default-argument state
         res = P.Result()
         viol = res.violations
         probes = res.probes
@@ -94,6 +101,20 @@ class C20(P.Property):
         os.makedirs(D)
         self.counter += 1
         path = os.path.join(D, f"d{self.counter}")
+        b = bmodel = None
+        if plan.get("bystander"):
+            probe("bystander_dict")
+            b = cls.create(path + "-other")
+            b[b"other-key"] = b"other-value"
+            bmodel = {b"other-key": b"other-value"}
+
+        def by_check(si):
+            o = outcome(lambda: (len(b), sorted(b), [b.get(k) for k in sorted(bmodel)]))
+            if o != ("ok", (len(bmodel), sorted(bmodel), [bmodel[k] for k in sorted(bmodel)])):
+                viol.append(V("C20.state", "MODEL_MISMATCH", f"step {si}: a second, unrelated dictionary alive in the same process differs from its own "
+                                                          f"dict model (dictionaries interfere): {o!r:.80}", step=si))
+                return False
+            return True
         start = plan["start"]
         if start["how"] == "create":
             d = cls.create(path)
@@ -129,8 +150,26 @@ class C20(P.Property):
         try:
             if not check_all(-1, "after construction"):
                 raise StopIteration
+            if b is not None and not by_check(-1):
+                raise StopIteration
             for si, st in enumerate(plan["steps"]):
                 op = st["op"]
+                if op == "by":
+                    if b is None:
+                        continue
+                    k = key(st["k"])
+                    if st["do"] == "set":
+                        b[k] = unhx(st["v"])
+                        bmodel[k] = unhx(st["v"])
+                    elif st["do"] == "del" and k in bmodel:
+                        del b[k]
+                        del bmodel[k]
+                    obs.append(("by", st["do"]))
+                    if not by_check(si):
+                        break
+                    if not closed and not check_all(si, "after an operation on a second, unrelated dictionary"):
+                        break
+                    continue
                 if closed and op not in ("reopen", "ctx", "close", "create_existing", "open_missing"):
                     probe("op_while_closed")
                     k = key(st.get("k", 0))
@@ -315,9 +354,16 @@ class C20(P.Property):
                     check_all(len(plan["steps"]), "final, after close and reopen")
         except StopIteration:
             pass
+            if b is not None and not viol:
+                by_check(len(plan["steps"]))
         finally:
             try:
                 d.close()
+            except Exception:
+                pass
+            try:
+                if b is not None:
+                    b.close()
             except Exception:
                 pass
         for ki, h in hist.items():
@@ -328,7 +374,7 @@ class C20(P.Property):
             i3 = s.find("s", i2 + 1) if i2 >= 0 else -1
             if i3 >= 0 and "R" in s[i1:i3]:
                 probe("set_del_set_across_reopen")
-        res.digest = P.digest_of((plan["cls"], obs, [dict(v) for v in viol]))
+        res.digest = P.digest_of((plan["cls"], obs, [v.cls() for v in viol]))
         res.shape = P.shape_of((plan["cls"], start["how"], obs))
         res.nontrivial = mutated and restarted
         res.events = len(obs)
@@ -340,6 +386,8 @@ class C20(P.Property):
         return res
 
     def simplifications(self, plan):
+        if plan.get("bystander"):
+            yield dict(plan, bystander=False)
         if plan["start"]["how"] != "create":
             yield dict(plan, start={"how": "create"})
             if plan["start"].get("mutate_src"):
